@@ -259,5 +259,9 @@ func keyEmbeddingsFor(c *concretizer, maxKey int, strideOneOnly bool, thorough b
 	}
 	add(37, 1)
 	add(-1000, 1)
+	add(-53, 1)
+	if !strideOneOnly {
+		add(-61, 2)
+	}
 	return out
 }
